@@ -1,9 +1,294 @@
 import ALV.Common.Json
+import ALV.Model.C05
+import ALV.Spec.C05
 namespace ALV.Driver.C05
-open ALV ALV.J
+open ALV ALV.J ALV.C07 ALV.C05
 
-/-- stub: the C05 slice is not built yet -/
-def handle (entry : String) (_j : Json) : Except String Json :=
-  throw s!"C05: unknown entry {entry}"
+/-- driver problem (bad request) or a Python exception predicted by the model -/
+inductive Err where
+  | drv (s : String)
+  | py (e : PyErr)
+
+abbrev M := Except Err
+
+def liftD {β} (x : Except String β) : M β :=
+  match x with
+  | .ok v => .ok v
+  | .error s => .error (.drv s)
+
+def liftP {β} (x : Except PyErr β) : M β :=
+  match x with
+  | .ok v => .ok v
+  | .error e => .error (.py e)
+
+abbrev P := MPoly Rat
+abbrev F := ZF Rat
+
+def pairJ (kv : Int × Rat) : Json := Json.arr [intToJson kv.1, ratToJson kv.2]
+def polyJ (p : P) : Json := arr pairJ p
+
+def getPair (j : Json) : Except String (Int × Rat) := do
+  match ← getArr j with
+  | [a, b] => pure (← getInt a, ← getRat b)
+  | _ => throw "expected [power, coeff]"
+
+def errJ (e : PyErr) : Json := Json.mkObj [("err", Json.str e.name)]
+
+def exceptJ {β} (f : β → Json) : Except PyErr β → Json
+  | .ok v => f v
+  | .error e => errJ e
+
+def mToJson (x : M Json) : Except String Json :=
+  match x with
+  | .ok j => .ok j
+  | .error (.py e) => .ok (errJ e)
+  | .error (.drv s) => .error s
+
+def boolJ (b : Bool) : Json := Json.bool b
+
+/-- model evaluation of an expression tree, operator by operator as Python dispatches them -/
+partial def evalM (j : Json) : M F := do
+  let l ← liftD (getArr j)
+  let rat (c : Json) : M Rat := liftD (getRat c)
+  match l with
+  | [Json.str "f", n, d] => do
+      let n ← liftD (getList getPair n)
+      let d ← liftD (getList getPair d)
+      liftP (ofData n d)
+  | [Json.str "fl", n, d] => do
+      let n ← liftD (getList getRat n)
+      let d ← liftD (getList getRat d)
+      liftP (ofPolys (ofList n) (ofList d))
+  | [Json.str "z"] => liftP C05.z
+  | [Json.str "s", c] => do liftP (ofScalar (← rat c))
+  | [Json.str "neg", a] => do liftP (neg (← evalM a))
+  | [Json.str "pos", a] => do liftP (pos (← evalM a))
+  | [Json.str "add", a, b] => do
+      let f ← evalM a
+      let g ← evalM b
+      liftP (add f g)
+  | [Json.str "sub", a, b] => do
+      let f ← evalM a
+      let g ← evalM b
+      liftP (sub f g)
+  | [Json.str "mul", a, b] => do
+      let f ← evalM a
+      let g ← evalM b
+      liftP (mul f g)
+  | [Json.str "div", a, b] => do
+      let f ← evalM a
+      let g ← evalM b
+      liftP (truediv f g)
+  | [Json.str "pow", a, n] => do
+      let f ← evalM a
+      liftP (pow f (← liftD (getInt n)))
+  | [Json.str "subst", a, b] => do
+      let f ← evalM a
+      let g ← evalM b
+      liftP (subst f g)
+  | [Json.str "adds", a, c] => do let f ← evalM a; liftP (addScalar f (← rat c))
+  | [Json.str "subs", a, c] => do let f ← evalM a; liftP (subScalar f (← rat c))
+  | [Json.str "muls", a, c] => do let f ← evalM a; liftP (mulScalar f (← rat c))
+  | [Json.str "divs", a, c] => do let f ← evalM a; liftP (divScalar f (← rat c))
+  | [Json.str "radds", c, a] => do let f ← evalM a; liftP (raddScalar (← rat c) f)
+  | [Json.str "rsubs", c, a] => do let f ← evalM a; liftP (rsubScalar (← rat c) f)
+  | [Json.str "rmuls", c, a] => do let f ← evalM a; liftP (rmulScalar (← rat c) f)
+  | [Json.str "rdivs", c, a] => do let f ← evalM a; liftP (rdivScalar (← rat c) f)
+  | _ => throw (.drv s!"C05: bad expression {j.compress}")
+
+/-- the rational function a tree denotes (textbook field of fractions); `none` = undefined
+(division by the zero function, zero denominator) -/
+partial def evalS (j : Json) : Except String (Option F) := do
+  let l ← getArr j
+  let un (a : Json) (f : F → Option F) : Except String (Option F) := do
+    pure ((← evalS a).bind f)
+  let bin (a b : Json) (f : F → F → Option F) : Except String (Option F) := do
+    let p ← evalS a
+    let q ← evalS b
+    pure (p.bind fun p => q.bind fun q => f p q)
+  let nz (f : F) : Option F := if f.den = [] then none else some f
+  match l with
+  | [Json.str "f", n, d] => do
+      let n ← getList getPair n
+      let d ← getList getPair d
+      pure (nz ⟨canon (ofPairs n), canon (ofPairs d)⟩)
+  | [Json.str "fl", n, d] => do
+      let n ← getList getRat n
+      let d ← getList getRat d
+      pure (nz ⟨canon (C07.enumFrom 0 n), canon (C07.enumFrom 0 d)⟩)
+  | [Json.str "z"] => pure (some rZ)
+  | [Json.str "s", c] => do pure (some (rScalar (← getRat c)))
+  | [Json.str "neg", a] => un a (fun f => some (rNeg f))
+  | [Json.str "pos", a] => un a some
+  | [Json.str "add", a, b] => bin a b (fun f g => some (rAdd f g))
+  | [Json.str "sub", a, b] => bin a b (fun f g => some (rSub f g))
+  | [Json.str "mul", a, b] => bin a b (fun f g => some (rMul f g))
+  | [Json.str "div", a, b] => bin a b rDiv
+  | [Json.str "pow", a, n] => do let n ← getInt n; un a (fun f => rPow f n)
+  | [Json.str "subst", a, b] => bin a b rSubst
+  | [Json.str "adds", a, c] => do let c ← getRat c; un a (fun f => some (rAdd f (rScalar c)))
+  | [Json.str "subs", a, c] => do let c ← getRat c; un a (fun f => some (rSub f (rScalar c)))
+  | [Json.str "muls", a, c] => do let c ← getRat c; un a (fun f => some (rMul f (rScalar c)))
+  | [Json.str "divs", a, c] => do let c ← getRat c; un a (fun f => rDiv f (rScalar c))
+  | [Json.str "radds", c, a] => do let c ← getRat c; un a (fun f => some (rAdd (rScalar c) f))
+  | [Json.str "rsubs", c, a] => do let c ← getRat c; un a (fun f => some (rSub (rScalar c) f))
+  | [Json.str "rmuls", c, a] => do let c ← getRat c; un a (fun f => some (rMul (rScalar c) f))
+  | [Json.str "rdivs", c, a] => do let c ← getRat c; un a (fun f => rDiv (rScalar c) f)
+  | _ => throw s!"C05: bad expression {j.compress}"
+
+def sigJ (r : Except PyErr (List Rat)) : Json := exceptJ rats r
+
+/-- what is observed of a filter object -/
+def observe (f : F) (xs : List Rat) : Json :=
+  Json.mkObj [
+    ("num", polyJ (sortAsc f.num)), ("den", polyJ (sortAsc f.den)),
+    ("items_num", polyJ f.num), ("items_den", polyJ f.den),
+    ("causal", boolJ (isCausal f)),
+    ("hash", ints (hashKey f)),
+    ("linearize", exceptJ (fun g => Json.mkObj [("num", polyJ (sortAsc g.num)), ("den", polyJ (sortAsc g.den))])
+      (linearize f)),
+    ("out", sigJ (call f xs))]
+
+def observeS (s : F) (xs : List Rat) : Json :=
+  let out := match rNorm s with
+    | some g => if isPolynomial g.num then rats (apply g xs) else Json.null
+    | none => Json.null
+  Json.mkObj [("num", polyJ s.num), ("den", polyJ s.den), ("causal", boolJ (rCausal s)), ("out", out)]
+
+/-- `Except` results compared up to the rational function they denote -/
+def equivR (a b : Except PyErr F) : Json :=
+  match a, b with
+  | .ok x, .ok y => boolJ (rEquiv (rOf x) (rOf y))
+  | _, _ => Json.null
+
+def sigEq (a b : Except PyErr (List Rat)) : Json :=
+  match a, b with
+  | .ok x, .ok y => boolJ (x == y)
+  | _, _ => Json.null
+
+def bindE {β γ} (a : Except PyErr β) (f : β → Except PyErr γ) : Except PyErr γ := a >>= f
+
+/-- the laws of the property evaluated through the model; `null` = an operand does not exist
+(an exception) or the law does not apply (non-causal) -/
+def laws (f g h : F) (n m : Nat) (c : Rat) (k : Nat) (xs : List Rat) (withSubst : Bool) : List (String × Json) :=
+  let one : Except PyErr F := C05.ofScalar (1 : Rat)
+  let zero : Except PyErr F := C05.ofScalar (0 : Rat)
+  let addE (a b : Except PyErr F) : Except PyErr F := bindE a fun x => bindE b fun y => add x y
+  let mulE (a b : Except PyErr F) : Except PyErr F := bindE a fun x => bindE b fun y => mul x y
+  let sbE (a b : Except PyErr F) : Except PyErr F := bindE a fun x => bindE b fun y => sub x y
+  let divE (a b : Except PyErr F) : Except PyErr F := bindE a fun x => bindE b fun y => truediv x y
+  let powE (a : Except PyErr F) (e : Int) : Except PyErr F := bindE a fun x => pow x e
+  let subE (a b : Except PyErr F) : Except PyErr F := bindE a fun x => bindE b fun y => subst x y
+  let F' : Except PyErr F := .ok f
+  let G' : Except PyErr F := .ok g
+  let H' : Except PyErr F := .ok h
+  let callE (a : Except PyErr F) (x : Except PyErr (List Rat)) : Except PyErr (List Rat) :=
+    bindE a fun a => bindE x fun x => call a x
+  let X : Except PyErr (List Rat) := .ok xs
+  let mapE (fn : List Rat → List Rat) (a : Except PyErr (List Rat)) : Except PyErr (List Rat) := a.map fn
+  let zipE (fn : List Rat → List Rat → List Rat) (a b : Except PyErr (List Rat)) : Except PyErr (List Rat) :=
+    bindE a fun x => b.map fun y => fn x y
+  let iter (a : F) : Nat → Except PyErr (List Rat) → Except PyErr (List Rat) := fun cnt x =>
+    Nat.rec x (fun _ acc => callE (.ok a) acc) cnt
+  let zk := powE C05.z (-(k : Int))
+  let sdef := withSubst && (rSubst (rOf f) (rOf h)).isSome && (rSubst (rOf g) (rOf h)).isSome &&
+    (rSubst (rAdd (rOf f) (rOf g)) (rOf h)).isSome && (rSubst (rMul (rOf f) (rOf g)) (rOf h)).isSome
+  [ ("add_comm", equivR (addE F' G') (addE G' F')),
+    ("add_assoc", equivR (addE (addE F' G') H') (addE F' (addE G' H'))),
+    ("mul_comm", equivR (mulE F' G') (mulE G' F')),
+    ("mul_assoc", equivR (mulE (mulE F' G') H') (mulE F' (mulE G' H'))),
+    ("distrib", equivR (mulE F' (addE G' H')) (addE (mulE F' G') (mulE F' H'))),
+    ("sub_self", equivR (sbE F' F') zero),
+    ("add_neg", equivR (sbE F' G') (addE F' (bindE G' neg))),
+    ("div_self", if f.num.isEmpty then Json.null else equivR (divE F' F') one),
+    ("div_mul_cancel", if g.num.isEmpty then Json.null else equivR (mulE (divE F' G') G') F'),
+    ("pow_add", equivR (powE F' ((n : Int) + m)) (mulE (powE F' n) (powE F' m))),
+    ("pow_neg", if f.num.isEmpty then Json.null else equivR (powE F' (-(n : Int))) (divE one (powE F' n))),
+    ("pow_nfold", equivR (powE F' n) (Nat.rec one (fun _ acc => mulE acc F') n)),
+    ("scalar_mul", equivR (mulScalar f c) (bindE (C05.ofScalar c) fun s => mul s f)),
+    -- substitution is only defined where no 1/0 occurs (the code evaluates `0 ** -1` of the zero filter to 0)
+    ("subst_add", if sdef then equivR (subE (addE F' G') H') (addE (subE F' H') (subE G' H')) else Json.null),
+    ("subst_mul", if sdef then equivR (subE (mulE F' G') H') (mulE (subE F' H') (subE G' H')) else Json.null),
+    ("subst_z", if withSubst then equivR (subE F' C05.z) F' else Json.null),
+    -- signals
+    ("sig_add", sigEq (callE (addE F' G') X) (zipE addSig (callE F' X) (callE G' X))),
+    ("sig_sub", sigEq (callE (sbE F' G') X) (zipE subSig (callE F' X) (callE G' X))),
+    ("sig_scale", sigEq (callE (mulScalar f c) X) (mapE (scaleSig c) (callE F' X))),
+    ("sig_rscale", sigEq (callE (rmulScalar c f) X) (mapE (scaleSig c) (callE F' X))),
+    ("sig_mul", sigEq (callE (mulE F' G') X) (callE F' (callE G' X))),
+    ("sig_mul_comm", sigEq (callE F' (callE G' X)) (callE G' (callE F' X))),
+    ("sig_div_mul", if g.num.isEmpty then Json.null else sigEq (callE (mulE (divE F' G') G') X) (callE F' X)),
+    ("sig_pow", sigEq (callE (powE F' n) X) (iter f n X)),
+    ("sig_delay", sigEq (callE zk X) (.ok (delay k xs))),
+    ("sig_cascade", sigEq (cascadeCall [f, g, h] xs) (callE (mulE (mulE F' G') H') X)),
+    ("sig_parallel", sigEq (parallelCall [f, g, h] xs) (callE (addE (addE F' G') H') X)) ]
+
+def handle (entry : String) (j : Json) : Except String Json := do
+  let xs ← getList getRat (fieldD j "xs" (Json.arr []))
+  match entry with
+  | "tree" =>
+    let e ← field j "tree"
+    let m ← mToJson (do let f ← evalM e; pure (observe f xs))
+    let s ← evalS e
+    pure <| Json.mkObj [("model", m), ("spec", optJson (fun s => observeS s xs) s)]
+  | "laws" =>
+    let n ← getNat (← field j "n")
+    let mm ← getNat (← field j "m")
+    let k ← getNat (← field j "k")
+    let c ← getRat (← field j "c")
+    let ws ← getBool (fieldD j "subst" (Json.bool false))
+    let m ← mToJson (do
+      let f ← evalM (← liftD (field j "f"))
+      let g ← evalM (← liftD (field j "g"))
+      let h ← evalM (← liftD (field j "h"))
+      pure (Json.mkObj (laws f g h n mm c k xs ws)))
+    pure <| Json.mkObj [("model", m)]
+  | "eq" =>
+    let m ← mToJson (do
+      let p ← evalM (← liftD (field j "p"))
+      let q ← evalM (← liftD (field j "q"))
+      pure (Json.mkObj [("eq", boolJ (C05.eq p q)), ("ne", boolJ (C05.ne p q)),
+        ("ne_fixed", boolJ (neFixed p q)), ("hash_equal", boolJ (hashKey p == hashKey q))]))
+    let sp ← evalS (← field j "p")
+    let sq ← evalS (← field j "q")
+    -- `==` on filter objects compares the normalised pair of polynomials
+    let s := match sp.bind rNorm, sq.bind rNorm with
+      | some a, some b => Json.mkObj [("eq", boolJ (a.num == b.num && a.den == b.den)),
+          ("equiv", boolJ (rEquiv a b))]
+      | _, _ => Json.null
+    pure <| Json.mkObj [("model", m), ("spec", s)]
+  | "list" =>
+    -- CascadeFilter / ParallelFilter of the parts
+    let kind ← getStr (← field j "kind")
+    let ts ← getArr (← field j "fs")
+    let m ← mToJson (do
+      let fs ← ts.mapM evalM
+      if kind == "cascade" then
+        pure (Json.mkObj [("numpoly", exceptJ (fun p => polyJ (sortAsc p)) (cascadeNumpoly fs)),
+          ("denpoly", exceptJ (fun p => polyJ (sortAsc p)) (cascadeDenpoly fs)),
+          ("out", sigJ (cascadeCall fs xs))])
+      else
+        pure (Json.mkObj [("numpoly", exceptJ (fun p => polyJ (sortAsc p)) (parallelNumpoly fs)),
+          ("denpoly", exceptJ (fun p => polyJ (sortAsc p)) (parallelDenpoly fs)),
+          ("denpoly_fixed", exceptJ (fun p => polyJ (sortAsc p)) (parallelDenpolyFixed fs)),
+          ("shortcut", boolJ (match fs with
+            | [] => false
+            | f :: t => (t.foldl (fun (st : Bool × Except PyErr F) g =>
+                match st.2 with
+                | .ok a => (st.1 || C07.eq a.den g.den, add a g)
+                | .error e => (st.1, .error e)) (false, .ok f)).1)),
+          ("out", sigJ (parallelCall fs xs))]))
+    let ss ← ts.mapM evalS
+    let s := match ss.mapM id with
+      | none => Json.null
+      | some fs =>
+        let r := if kind == "cascade" then rProd fs else rSum fs
+        let causal := fs.all rCausal
+        let parts := fs.filterMap rNorm
+        Json.mkObj [("num", polyJ r.num), ("den", polyJ r.den),
+          ("out", if causal then rats (if kind == "cascade" then cascadeApply parts xs else parallelApply parts xs)
+                  else Json.null)]
+    pure <| Json.mkObj [("model", m), ("spec", s)]
+  | _ => throw s!"C05: unknown entry {entry}"
 
 end ALV.Driver.C05
